@@ -24,7 +24,7 @@ from gtirb_rewriting.dwarf import cfi_eval as CE
 from gtirb_rewriting.dwarf.cfi_eval import CFIStateError, evaluate_cfi_directives
 
 from .. import cfimodel
-from ..core import TaskResult, h8
+from ..core import TaskResult, h8, sig_of
 
 PROPERTY = "C15"
 LEVEL = "model_checking"
@@ -521,6 +521,22 @@ def _ref_run(abi, events):
     return r
 
 
+PER_SIGNATURE_CASES = 3  # cases kept per discrepancy signature and task; the rest is only counted
+
+
+def _report(res, case, diffs):
+    """res.bad() keeps at most 400 cases per task; a frequent (known) discrepancy must not push a
+    rare one out of that list, so only the first few cases of every signature are kept and all
+    of them are counted per signature ("sig:..." counters in the evidence)."""
+    sig = " + ".join(sorted({sig_of(d) for d in diffs}))
+    res.extra["sig:" + sig] += 1
+    if res.extra["sig:" + sig] <= PER_SIGNATURE_CASES:
+        res.bad(case, diffs)
+    else:
+        for d in diffs:
+            res.extra["diff:" + d["kind"]] += 1
+
+
 def explore(abi, roots, seen, max_depth, res):
     """BFS over the extensions of the root histories, at most max_depth events in total;
     every transition runs on the real code.  `seen` holds the canonical states that are
@@ -542,7 +558,7 @@ def explore(abi, roots, seen, max_depth, res):
             new = k not in seen
             res.case((abi, k), nontrivial=new and not diffs, outcome=_outcome(ref) if not diffs else "DISCREPANCY")
             if diffs:
-                res.bad(_case(abi, nh), diffs)
+                _report(res, _case(abi, nh), diffs)
                 continue  # a state the real code does not reach correctly is not expanded
             if not new:
                 continue
